@@ -139,243 +139,260 @@ def run(ctx):
             (tmp / 'pa.json').write_text(json.dumps(patch_a)); (tmp / 'pb.json').write_text(json.dumps(patch_b))
             pset = {'metadata': {'references': {'hepdata': 'ins1234567'}, 'description': 'generated', 'digests': {'sha256': pyhf.utils.digest(ws)}, 'labels': ['m1']},
                     'patches': [{'metadata': {'name': 'pa', 'values': [1.0]}, 'patch': patch_a}, {'metadata': {'name': 'pb', 'values': [2.0]}, 'patch': patch_b}], 'version': '1.0.0'}
+            # per-patch annotations (the schema allows extra keys), some of them carrying the name of a patch-set-level key
+            for pt in pset['patches']:
+                for k, v in (('note', 'patch-level note'), ('description', 'patch-level description'), ('references', {'inspire': 'patch-level'}), ('labels', ['patch-level'])):
+                    if rng.random() < 0.3: pt['metadata'][k] = v
             (tmp / 'ps.json').write_text(json.dumps(pset))
-            cmd = rng.choice(['fit', 'fit', 'fit', 'fit', 'cls', 'cls', 'cls', 'cls', 'inspect', 'prune', 'rename', 'combine', 'sort', 'digest', 'patchset extract', 'patchset apply',
-                              'patchset verify', 'patchset inspect', 'json2xml', 'xml2json'])
-            use_stdin = rng.random() < 0.25 and cmd not in ('combine', 'patchset apply', 'patchset verify', 'xml2json')
-            to_file = rng.random() < 0.4 and cmd not in ('digest', 'patchset verify', 'patchset inspect', 'json2xml')
-            argv = cmd.split(); margs = {'cmd': cmd}; nondefault = 0
-            mods = sorted({(m['name'], m['type']) for c in ws['channels'] for s in c['samples'] for m in s['modifiers']})
-            smp = sorted({s['name'] for c in ws['channels'] for s in c['samples']}); chn = [c['name'] for c in ws['channels']]
-            main_in = 'ps.json' if cmd in ('patchset extract', 'patchset inspect') else 'ws.json'
-            stdin = None
-            def add_input():
-                nonlocal stdin
-                if use_stdin: argv.append('-'); stdin = (tmp / main_in).read_text()
-                else: argv.append(main_in)
-            lib = None      # the direct library computation (a thunk returning the python value that should be emitted)
-            if cmd in ('fit', 'cls'):
-                add_input()
-                meas = rng.choice([None, None, 'meas', 'tight', 'nope' if rng.random() < 0.3 else 'tight'])
-                patches = rng.choice([[], [], ['pa.json'], ['pa.json', 'pb.json'], ['pb.json', 'pa.json']])
-                backend = rng.choice(BACKENDS[:4] * 3 + BACKENDS) if (ctx.thorough or it % 3 == 0) else rng.choice(['numpy', 'np', 'numpy', 'pytorch', 'torch'])
-                if rng.random() < 0.04: backend = 'cupy'
-                optimizer = rng.choice(['scipy', 'scipy', 'minuit']) if rng.random() > 0.03 else 'ipopt'
-                optconf = rng.choice([[], [], ['maxiter=2000'], ['tolerance=0.001'], ['maxiter=1000', 'maxiter=3000'], ['maxiter=2000', 'verbose=0'], ['maxiter']] )
-                if optimizer == 'minuit' and rng.random() < 0.5: optconf = optconf + ['strategy=1']
-                if meas: argv += ['--measurement', meas]; nondefault += 1
-                for p in patches: argv += ['-p', p]
-                if backend != 'numpy': argv += ['--backend', backend]; nondefault += 1
-                if optimizer != 'scipy': argv += ['--optimizer', optimizer]; nondefault += 1
-                for o in optconf: argv += ['--optconf', o]
-                nondefault += bool(patches) + bool(optconf)
-                margs.update({'measurement': meas, 'patches': patches, 'backend': backend, 'optimizer': optimizer, 'optconf': optconf})
-                if cmd == 'fit':
-                    value = rng.random() < 0.5
-                    if value: argv.append('--value'); nondefault += 1
-                    margs['value'] = value
-                else:
-                    poi = rng.choice(['1.0', '1.0', '2', '0.5', '3.25']); ts = rng.choice(['qtilde', 'qtilde', 'q', 'q0' if rng.random() < 0.1 else 'q'])
-                    ct = rng.choice(['asymptotics'] * 6 + ['toys'])
-                    if poi != '1.0': argv += ['--test-poi', poi]; nondefault += 1
-                    if ts != 'qtilde': argv += ['--test-stat', ts]; nondefault += 1
-                    if ct != 'asymptotics': argv += ['--calctype', ct]
-                    margs.update({'test_poi': poi, 'test_stat': ts, 'calctype': ct})
-                def lib(margs=margs, cmd=cmd):
-                    name = {'np': 'numpy', 'torch': 'pytorch', 'tf': 'tensorflow'}.get(margs['backend'], margs['backend'])
-                    conf = {}
-                    for o in margs['optconf']: conf.update(yaml.safe_load(f"{o.split('=', 1)[0]}: {o.split('=', 1)[1]}"))
-                    w = pyhf.Workspace(json.loads((tmp / 'ws.json').read_text()))
-                    pts = [json.loads((tmp / p).read_text()) for p in margs['patches']]
-                    if cmd == 'cls':
-                        model = w.model(measurement_name=margs['measurement'], patches=pts, modifier_settings={'normsys': {'interpcode': 'code4'}, 'histosys': {'interpcode': 'code4p'}})
-                    pyhf.set_backend(name, getattr(pyhf.optimize, margs['optimizer'] + '_optimizer')(**conf), precision='64b')
-                    tl = pyhf.tensorlib
+            main_cmd = rng.choice(['fit', 'fit', 'fit', 'fit', 'cls', 'cls', 'cls', 'cls', 'inspect', 'prune', 'rename', 'combine', 'sort', 'digest', 'patchset extract', 'patchset apply',
+                                   'patchset verify', 'patchset inspect', 'json2xml', 'xml2json'])
+            # the structural subcommands cost milliseconds: three more of them on the same files
+            CHEAP = ['inspect', 'prune', 'rename', 'combine', 'sort', 'digest', 'patchset extract', 'patchset extract', 'patchset apply', 'patchset verify', 'patchset inspect']
+            for cmd in [main_cmd] + [rng.choice(CHEAP) for _ in range(3)]:
+                use_stdin = rng.random() < 0.25 and cmd not in ('combine', 'patchset apply', 'patchset verify', 'xml2json')
+                to_file = rng.random() < 0.4 and cmd not in ('digest', 'patchset verify', 'patchset inspect', 'json2xml')
+                argv = cmd.split(); margs = {'cmd': cmd}; nondefault = 0
+                mods = sorted({(m['name'], m['type']) for c in ws['channels'] for s in c['samples'] for m in s['modifiers']})
+                smp = sorted({s['name'] for c in ws['channels'] for s in c['samples']}); chn = [c['name'] for c in ws['channels']]
+                main_in = 'ps.json' if cmd in ('patchset extract', 'patchset inspect') else 'ws.json'
+                stdin = None
+                def add_input():
+                    nonlocal stdin
+                    if use_stdin: argv.append('-'); stdin = (tmp / main_in).read_text()
+                    else: argv.append(main_in)
+                lib = None      # the direct library computation (a thunk returning the python value that should be emitted)
+                if cmd in ('fit', 'cls'):
+                    add_input()
+                    meas = rng.choice([None, None, 'meas', 'tight', 'nope' if rng.random() < 0.3 else 'tight'])
+                    patches = rng.choice([[], [], ['pa.json'], ['pa.json', 'pb.json'], ['pb.json', 'pa.json']])
+                    backend = rng.choice(BACKENDS[:4] * 3 + BACKENDS) if (ctx.thorough or it % 3 == 0) else rng.choice(['numpy', 'np', 'numpy', 'pytorch', 'torch'])
+                    if rng.random() < 0.04: backend = 'cupy'
+                    optimizer = rng.choice(['scipy', 'scipy', 'minuit']) if rng.random() > 0.03 else 'ipopt'
+                    optconf = rng.choice([[], [], ['maxiter=2000'], ['tolerance=0.001'], ['maxiter=1000', 'maxiter=3000'], ['maxiter=2000', 'verbose=0'], ['maxiter'],
+                                          # a repeated key whose two values give observably different results (which one took effect shows in the output / exit status)
+                                          ['maxiter=1', 'maxiter=100000'], ['maxiter=100000', 'maxiter=1'], ['tolerance=0.5', 'tolerance=0.0000001']])
+                    if optimizer == 'minuit' and rng.random() < 0.5: optconf = optconf + ['strategy=1']
+                    if meas: argv += ['--measurement', meas]; nondefault += 1
+                    for p in patches: argv += ['-p', p]
+                    if backend != 'numpy': argv += ['--backend', backend]; nondefault += 1
+                    if optimizer != 'scipy': argv += ['--optimizer', optimizer]; nondefault += 1
+                    for o in optconf: argv += ['--optconf', o]
+                    nondefault += bool(patches) + bool(optconf)
+                    margs.update({'measurement': meas, 'patches': patches, 'backend': backend, 'optimizer': optimizer, 'optconf': optconf})
                     if cmd == 'fit':
-                        model = w.model(measurement_name=margs['measurement'], patches=pts)
-                        r = pyhf.infer.mle.fit(w.data(model), model, return_fitted_val=margs['value'])
-                        pars = r[0] if margs['value'] else r
-                        out = {'mle_parameters': {k: tl.tolist(pars[v['slice']]) for k, v in model.config.par_map.items()}}
-                        if margs['value']: out['twice_nll'] = tl.tolist(r[1])
-                        return out
-                    r = pyhf.infer.hypotest(float(margs['test_poi']), w.data(model), model, test_stat=margs['test_stat'], calctype=margs['calctype'], return_expected_set=True)
-                    return {'CLs_obs': tl.tolist(r[0]), 'CLs_exp': [tl.tolist(x) for x in r[-1]]}
-            elif cmd == 'inspect':
-                add_input(); meas = rng.choice([None, 'meas', 'tight', 'nope'])
-                if meas: argv += ['--measurement', meas]; nondefault += 1
-                margs['measurement'] = meas
-            elif cmd == 'prune':
-                add_input()
-                pick = lambda xs, k=1: rng.sample(xs, min(len(xs), rng.randint(0, k)))
-                sel = {'channels': pick(chn) if len(chn) > 1 else [], 'samples': pick([x for x in smp if len(smp) > 1][:1]), 'modifiers': pick([n for n, t in mods if n != 'mu'], 2),
-                       'modifier_types': pick(sorted({t for n, t in mods if t != 'normfactor'})), 'measurements': pick(['tight'])}
-                if rng.random() < 0.15: sel['channels'] = sel['channels'] + ['nope']
-                for k, fl_ in (('channels', '-c'), ('samples', '-s'), ('modifiers', '-m'), ('modifier_types', '-t'), ('measurements', '--measurement')):
-                    for v in sel[k]: argv += [fl_, v]
-                nondefault = sum(1 for v in sel.values() if v)
-                margs.update(sel)
-                lib = lambda sel=sel: dict(pyhf.Workspace(json.loads((tmp / 'ws.json').read_text())).prune(**sel))
-            elif cmd == 'rename':
-                add_input()
-                ren = {'channels': [[chn[0], 'X_' + chn[0]]] if rng.random() < 0.5 else [], 'samples': [[smp[0], 'X_' + smp[0]]] if rng.random() < 0.5 else [],
-                       'modifiers': [[n, 'X_' + n] for n, t in mods[:rng.randint(0, 2)]], 'measurements': [['meas', 'first']] if rng.random() < 0.4 else []}
-                if ren['channels'] and rng.random() < 0.4: ren['channels'].append([chn[0], 'Y_' + chn[0]])      # the same key twice: last one wins
-                if rng.random() < 0.1: ren['samples'] = ren['samples'] + [['nope', 'x']]
-                for k, fl_ in (('channels', '-c'), ('samples', '-s'), ('modifiers', '-m'), ('measurements', '--measurement')):
-                    for a, b in ren[k]: argv += [fl_, a, b]
-                nondefault = sum(1 for v in ren.values() if v)
-                margs.update(ren)
-                lib = lambda ren=ren: dict(pyhf.Workspace(json.loads((tmp / 'ws.json').read_text())).rename(**{k: dict(v) for k, v in ren.items()}))
-            elif cmd == 'combine':
-                argv += ['ws.json', 'ws2.json']
-                join = rng.choice(['none', 'outer', 'left outer', 'right outer', 'inner' if rng.random() < 0.1 else 'outer']); merge = rng.random() < 0.3
-                other = 'ws2.json' if rng.random() < 0.7 else 'ws.json'; argv[-1] = other
-                if join != 'none': argv += ['-j', join]; nondefault += 1
-                if merge: argv += ['--merge-channels']; nondefault += 1
-                margs.update({'join': join, 'merge': merge})
-                lib = lambda join=join, merge=merge, other=other: dict(pyhf.Workspace.combine(pyhf.Workspace(json.loads((tmp / 'ws.json').read_text())), pyhf.Workspace(json.loads((tmp / other).read_text())), join=join, merge_channels=merge))
-            elif cmd == 'sort':
-                add_input(); lib = lambda: dict(pyhf.Workspace.sorted(pyhf.Workspace(json.loads((tmp / 'ws.json').read_text()))))
-            elif cmd == 'digest':
-                add_input(); algs = rng.choice([[], ['md5'], ['sha256', 'md5'], ['md5', 'sha256', 'md5'], ['sha512'], ['nope']]); js = rng.random() < 0.5
-                for a in algs: argv += ['-a', a]
-                if js: argv.append('-j')
-                nondefault = bool(algs) + js
-                margs.update({'algorithms': algs or ['sha256'], 'json': js})
-            elif cmd == 'patchset extract':
-                add_input(); name = rng.choice(['pa', 'pb', 'nope', None]); wm = rng.random() < 0.5
-                if name: argv += ['--name', name]
-                if wm: argv.append('--with-metadata')
-                nondefault = bool(name) + wm
-                margs.update({'name': name, 'with_metadata': wm})
-                def lib(name=name, wm=wm):
-                    ps = pyhf.PatchSet(json.loads((tmp / 'ps.json').read_text())); p = ps[name]
-                    if not wm: return p.patch
-                    r = {'metadata': dict(p.metadata), 'patch': p.patch}; r['metadata'].update(ps.metadata); return r
-            elif cmd in ('patchset apply', 'patchset verify'):
-                bkg = rng.choice(['ws.json', 'ws.json', 'ws2.json']); argv += [bkg, 'ps.json']; name = rng.choice(['pa', 'pb', 'nope'])
-                if cmd == 'patchset apply': argv += ['--name', name]; margs['name'] = name
-                nondefault = 1
-                if cmd == 'patchset apply':
-                    lib = lambda bkg=bkg, name=name: dict(pyhf.PatchSet(json.loads((tmp / 'ps.json').read_text())).apply(pyhf.Workspace(json.loads((tmp / bkg).read_text())), name))
-                else:
-                    lib = lambda bkg=bkg: pyhf.PatchSet(json.loads((tmp / 'ps.json').read_text())).verify(pyhf.Workspace(json.loads((tmp / bkg).read_text())))
-            elif cmd == 'patchset inspect':
-                add_input()
-            elif cmd in ('json2xml', 'xml2json'):
-                out = tmp / 'xml'; shutil.rmtree(out, ignore_errors=True); out.mkdir()
-                sr, dr, rp = rng.choice([('config', 'data', 'FitConfig'), ('cfg', 'hists', 'Top')]); patches = rng.choice([[], ['pa.json']])
-                jargv = ['json2xml', 'ws.json', '--output-dir', str(out)] + (['--specroot', sr, '--dataroot', dr, '--resultprefix', rp] if sr != 'config' else [])
-                for p in patches: jargv += ['-p', p]
-                if cmd == 'json2xml':
-                    argv = jargv; nondefault = (sr != 'config') + bool(patches)
-                    margs.update({'specroot': sr, 'dataroot': dr, 'resultprefix': rp, 'patches': patches})
-                else:
-                    r0, _ = invoke(jargv)
-                    if r0.exit_code != 0: continue
-                    tp = rng.random() < 0.5; ve = rng.random() < 0.5
-                    argv = ['xml2json', str(out / f'{rp}.xml'), '--basedir', str(tmp)] + ([] if tp else ['--hide-progress']) + ([] if ve else ['--validation-as-warning'])
-                    nondefault = (not tp) + (not ve)
-                    margs.update({'track_progress': tp, 'validation_as_error': ve})
-                    lib = lambda rp=rp, out=out: pyhf.readxml.parse(str(out / f'{rp}.xml'), str(tmp))
-            outfile = tmp / 'out.json'
-            if outfile.exists(): outfile.unlink()
-            if to_file: argv += ['--output-file', str(outfile)]
-            res, calls = invoke(argv, stdin)
-            ctx.count(); ctx.tally('subcommand', cmd); ctx.tally('exit', res.exit_code); ctx.tally('input', 'stdin' if use_stdin else 'file'); ctx.tally('output', 'file' if to_file else 'stdout')
-            inp = {'argv': argv, 'workspace': ws, 'stdin': use_stdin}
-            rep = lean.ok(dict(margs, op='cli'))
-            mcall = rep['call']
-            # ---------------- correspondence: the call the options determine
-            if (mcall['call'] == 'usage-error') != (res.exit_code == 2):
-                ctx.disagree('cli.usage-error', inp, mcall['call'], res.exit_code)
-            elif mcall['call'] != 'usage-error':
-                got = normalise_calls(cmd, calls, yaml)
-                want = expected_from_model(mcall, yaml, tmp)
-                for k in want:
-                    if k in got and got[k] != want[k]:
-                        ctx.disagree(f'cli.dispatch.{cmd}.{k}', inp, want[k], got[k])
-                    elif k not in got and res.exit_code == 0:
-                        ctx.disagree(f'cli.dispatch.{cmd}.{k}', inp, want[k], None, 'the library entry point was not reached')
-            # ---------------- oracles
-            text = res.stdout
-            if res.exit_code == 0 and to_file:
-                if not outfile.exists():
-                    ctx.fail('C19/output-file', 'no output file was written', inp); continue
-                ftext = outfile.read_text()
-                r2, _ = invoke([a for a in argv if a not in ('--output-file', str(outfile))], stdin)
-                if cmd == 'inspect':
-                    pass
-                elif r2.exit_code != 0 or not same_json(r2.stdout, ftext, cmd):
-                    ctx.fail('C19/file-vs-stdout', 'output to a file and to standard output differ', inp, ftext[:300], r2.output[:300])
-                text = ftext if cmd != 'inspect' else text
-            if lib is not None and mcall['call'] != 'usage-error':
-                try:
-                    pyhf.set_backend('numpy', 'scipy', precision='64b'); want = lib(); lerr = None
-                except Exception as e:  # noqa
-                    want = None; lerr = type(e).__name__
-                finally:
-                    pyhf.set_backend('numpy', 'scipy', precision='64b')
-                if (lerr is None) != (res.exit_code == 0):
-                    ctx.fail('C19/exit-status', 'exit status does not say whether the library call succeeds', inp, [res.exit_code, type(res.exception).__name__ if res.exception else None], lerr or 'success')
-                elif lerr is None and cmd != 'patchset verify':
+                        value = rng.random() < 0.5
+                        if value: argv.append('--value'); nondefault += 1
+                        margs['value'] = value
+                    else:
+                        poi = rng.choice(['1.0', '1.0', '2', '0.5', '3.25']); ts = rng.choice(['qtilde', 'qtilde', 'q', 'q0' if rng.random() < 0.1 else 'q'])
+                        ct = rng.choice(['asymptotics'] * 6 + ['toys'])
+                        if poi != '1.0': argv += ['--test-poi', poi]; nondefault += 1
+                        if ts != 'qtilde': argv += ['--test-stat', ts]; nondefault += 1
+                        if ct != 'asymptotics': argv += ['--calctype', ct]
+                        margs.update({'test_poi': poi, 'test_stat': ts, 'calctype': ct})
+                    def lib(margs=margs, cmd=cmd):
+                        name = {'np': 'numpy', 'torch': 'pytorch', 'tf': 'tensorflow'}.get(margs['backend'], margs['backend'])
+                        conf = {}
+                        for o in margs['optconf']: conf.update(yaml.safe_load(f"{o.split('=', 1)[0]}: {o.split('=', 1)[1]}"))
+                        w = pyhf.Workspace(json.loads((tmp / 'ws.json').read_text()))
+                        pts = [json.loads((tmp / p).read_text()) for p in margs['patches']]
+                        if cmd == 'cls':
+                            model = w.model(measurement_name=margs['measurement'], patches=pts, modifier_settings={'normsys': {'interpcode': 'code4'}, 'histosys': {'interpcode': 'code4p'}})
+                        pyhf.set_backend(name, getattr(pyhf.optimize, margs['optimizer'] + '_optimizer')(**conf), precision='64b')
+                        tl = pyhf.tensorlib
+                        if cmd == 'fit':
+                            model = w.model(measurement_name=margs['measurement'], patches=pts)
+                            r = pyhf.infer.mle.fit(w.data(model), model, return_fitted_val=margs['value'])
+                            pars = r[0] if margs['value'] else r
+                            out = {'mle_parameters': {k: tl.tolist(pars[v['slice']]) for k, v in model.config.par_map.items()}}
+                            if margs['value']: out['twice_nll'] = tl.tolist(r[1])
+                            return out
+                        r = pyhf.infer.hypotest(float(margs['test_poi']), w.data(model), model, test_stat=margs['test_stat'], calctype=margs['calctype'], return_expected_set=True)
+                        return {'CLs_obs': tl.tolist(r[0]), 'CLs_exp': [tl.tolist(x) for x in r[-1]]}
+                elif cmd == 'inspect':
+                    add_input(); meas = rng.choice([None, 'meas', 'tight', 'nope'])
+                    if meas: argv += ['--measurement', meas]; nondefault += 1
+                    margs['measurement'] = meas
+                elif cmd == 'prune':
+                    add_input()
+                    pick = lambda xs, k=1: rng.sample(xs, min(len(xs), rng.randint(0, k)))
+                    sel = {'channels': pick(chn) if len(chn) > 1 else [], 'samples': pick([x for x in smp if len(smp) > 1][:1]), 'modifiers': pick([n for n, t in mods if n != 'mu'], 2),
+                           'modifier_types': pick(sorted({t for n, t in mods if t != 'normfactor'})), 'measurements': pick(['tight'])}
+                    if rng.random() < 0.15: sel['channels'] = sel['channels'] + ['nope']
+                    for k, fl_ in (('channels', '-c'), ('samples', '-s'), ('modifiers', '-m'), ('modifier_types', '-t'), ('measurements', '--measurement')):
+                        for v in sel[k]: argv += [fl_, v]
+                    nondefault = sum(1 for v in sel.values() if v)
+                    margs.update(sel)
+                    lib = lambda sel=sel: dict(pyhf.Workspace(json.loads((tmp / 'ws.json').read_text())).prune(**sel))
+                elif cmd == 'rename':
+                    add_input()
+                    ren = {'channels': [[chn[0], 'X_' + chn[0]]] if rng.random() < 0.5 else [], 'samples': [[smp[0], 'X_' + smp[0]]] if rng.random() < 0.5 else [],
+                           'modifiers': [[n, 'X_' + n] for n, t in mods[:rng.randint(0, 2)]], 'measurements': [['meas', 'first']] if rng.random() < 0.4 else []}
+                    if ren['channels'] and rng.random() < 0.4: ren['channels'].append([chn[0], 'Y_' + chn[0]])      # the same key twice: last one wins
+                    if rng.random() < 0.1: ren['samples'] = ren['samples'] + [['nope', 'x']]
+                    for k, fl_ in (('channels', '-c'), ('samples', '-s'), ('modifiers', '-m'), ('measurements', '--measurement')):
+                        for a, b in ren[k]: argv += [fl_, a, b]
+                    nondefault = sum(1 for v in ren.values() if v)
+                    margs.update(ren)
+                    lib = lambda ren=ren: dict(pyhf.Workspace(json.loads((tmp / 'ws.json').read_text())).rename(**{k: dict(v) for k, v in ren.items()}))
+                elif cmd == 'combine':
+                    argv += ['ws.json', 'ws2.json']
+                    join = rng.choice(['none', 'outer', 'left outer', 'right outer', 'inner' if rng.random() < 0.1 else 'outer']); merge = rng.random() < 0.3
+                    other = 'ws2.json' if rng.random() < 0.7 else 'ws.json'; argv[-1] = other
+                    if join != 'none': argv += ['-j', join]; nondefault += 1
+                    if merge: argv += ['--merge-channels']; nondefault += 1
+                    margs.update({'join': join, 'merge': merge})
+                    lib = lambda join=join, merge=merge, other=other: dict(pyhf.Workspace.combine(pyhf.Workspace(json.loads((tmp / 'ws.json').read_text())), pyhf.Workspace(json.loads((tmp / other).read_text())), join=join, merge_channels=merge))
+                elif cmd == 'sort':
+                    add_input(); lib = lambda: dict(pyhf.Workspace.sorted(pyhf.Workspace(json.loads((tmp / 'ws.json').read_text()))))
+                elif cmd == 'digest':
+                    add_input(); algs = rng.choice([[], ['md5'], ['sha256', 'md5'], ['md5', 'sha256', 'md5'], ['sha512'], ['nope']]); js = rng.random() < 0.5
+                    for a in algs: argv += ['-a', a]
+                    if js: argv.append('-j')
+                    nondefault = bool(algs) + js
+                    margs.update({'algorithms': algs or ['sha256'], 'json': js})
+                elif cmd == 'patchset extract':
+                    add_input(); name = rng.choice(['pa', 'pb', 'nope', None]); wm = rng.random() < 0.5
+                    if name: argv += ['--name', name]
+                    if wm: argv.append('--with-metadata')
+                    nondefault = bool(name) + wm
+                    margs.update({'name': name, 'with_metadata': wm})
+                    def lib(name=name, wm=wm):
+                        ps = pyhf.PatchSet(json.loads((tmp / 'ps.json').read_text())); p = ps[name]
+                        if not wm: return p.patch
+                        r = {'metadata': dict(p.metadata), 'patch': p.patch}; r['metadata'].update(ps.metadata); return r
+                elif cmd in ('patchset apply', 'patchset verify'):
+                    bkg = rng.choice(['ws.json', 'ws.json', 'ws2.json']); argv += [bkg, 'ps.json']; name = rng.choice(['pa', 'pb', 'nope'])
+                    if cmd == 'patchset apply': argv += ['--name', name]; margs['name'] = name
+                    nondefault = 1
+                    if cmd == 'patchset apply':
+                        lib = lambda bkg=bkg, name=name: dict(pyhf.PatchSet(json.loads((tmp / 'ps.json').read_text())).apply(pyhf.Workspace(json.loads((tmp / bkg).read_text())), name))
+                    else:
+                        lib = lambda bkg=bkg: pyhf.PatchSet(json.loads((tmp / 'ps.json').read_text())).verify(pyhf.Workspace(json.loads((tmp / bkg).read_text())))
+                elif cmd == 'patchset inspect':
+                    add_input()
+                elif cmd in ('json2xml', 'xml2json'):
+                    out = tmp / 'xml'; shutil.rmtree(out, ignore_errors=True); out.mkdir()
+                    sr, dr, rp = rng.choice([('config', 'data', 'FitConfig'), ('cfg', 'hists', 'Top')]); patches = rng.choice([[], ['pa.json']])
+                    jargv = ['json2xml', 'ws.json', '--output-dir', str(out)] + (['--specroot', sr, '--dataroot', dr, '--resultprefix', rp] if sr != 'config' else [])
+                    for p in patches: jargv += ['-p', p]
+                    if cmd == 'json2xml':
+                        argv = jargv; nondefault = (sr != 'config') + bool(patches)
+                        margs.update({'specroot': sr, 'dataroot': dr, 'resultprefix': rp, 'patches': patches})
+                    else:
+                        r0, _ = invoke(jargv)
+                        if r0.exit_code != 0: continue
+                        tp = rng.random() < 0.5; ve = rng.random() < 0.5
+                        argv = ['xml2json', str(out / f'{rp}.xml'), '--basedir', str(tmp)] + ([] if tp else ['--hide-progress']) + ([] if ve else ['--validation-as-warning'])
+                        nondefault = (not tp) + (not ve)
+                        margs.update({'track_progress': tp, 'validation_as_error': ve})
+                        lib = lambda rp=rp, out=out: pyhf.readxml.parse(str(out / f'{rp}.xml'), str(tmp))
+                outfile = tmp / 'out.json'
+                if outfile.exists(): outfile.unlink()
+                if to_file: argv += ['--output-file', str(outfile)]
+                res, calls = invoke(argv, stdin)
+                ctx.count(); ctx.tally('subcommand', cmd); ctx.tally('exit', res.exit_code); ctx.tally('input', 'stdin' if use_stdin else 'file'); ctx.tally('output', 'file' if to_file else 'stdout')
+                inp = {'argv': argv, 'workspace': ws, 'stdin': use_stdin}
+                rep = lean.ok(dict(margs, op='cli'))
+                mcall = rep['call']
+                # ---------------- correspondence: the call the options determine
+                if (mcall['call'] == 'usage-error') != (res.exit_code == 2):
+                    ctx.disagree('cli.usage-error', inp, mcall['call'], res.exit_code)
+                elif mcall['call'] != 'usage-error':
+                    got = normalise_calls(cmd, calls, yaml)
+                    want = expected_from_model(mcall, yaml, tmp)
+                    for k in want:
+                        if k in got and got[k] != want[k]:
+                            ctx.disagree(f'cli.dispatch.{cmd}.{k}', inp, want[k], got[k])
+                        elif k not in got and res.exit_code == 0:
+                            ctx.disagree(f'cli.dispatch.{cmd}.{k}', inp, want[k], None, 'the library entry point was not reached')
+                # ---------------- oracles
+                text = res.stdout
+                if res.exit_code == 0 and to_file:
+                    if not outfile.exists():
+                        ctx.fail('C19/output-file', 'no output file was written', inp); continue
+                    ftext = outfile.read_text()
+                    r2, _ = invoke([a for a in argv if a not in ('--output-file', str(outfile))], stdin)
+                    if cmd == 'inspect':
+                        pass
+                    elif r2.exit_code != 0 or not same_json(r2.stdout, ftext, cmd):
+                        ctx.fail('C19/file-vs-stdout', 'output to a file and to standard output differ', inp, ftext[:300], r2.output[:300])
+                    text = ftext if cmd != 'inspect' else text
+                if lib is not None and mcall['call'] != 'usage-error':
                     try:
-                        got = json.loads(text)
-                    except Exception:
-                        ctx.fail('C19/not-json', 'the emitted text is not JSON', inp, text[:300]); got = None
-                    if got is not None and not close(got, json.loads(json.dumps(want))):
-                        ctx.fail('C19/values', 'the emitted JSON does not carry the values the library returns', inp, got, want)
-                    if got is not None and rep['keys'] and sorted(got) != rep['keys']:
-                        ctx.disagree('cli.result-keys', inp, rep['keys'], sorted(got))
-                elif lerr is None and text.strip() != 'All good.':
-                    ctx.fail('C19/verify-text', 'patchset verify did not report success', inp, text[:100])
-            if cmd == 'digest' and res.exit_code == 0:
-                algs = list(dict.fromkeys(margs['algorithms'])); dig = {a: pyhf.utils.digest(pyhf.Workspace(ws), algorithm=a) for a in algs}
-                if margs['json']:
-                    if json.loads(text) != dig: ctx.fail('C19/values', 'digest JSON differs from utils.digest', inp, text, dig)
-                else:
-                    wanttext = lean.ok({'op': 'cli_digest', 'algs': margs['algorithms'], 'digests': [[a, dig[a]] for a in algs]})
-                    if text != wanttext + '\n': ctx.disagree('cli.digest.plaintext', inp, wanttext, text)
-            if cmd == 'digest' and (res.exit_code == 0) != all(hasattr(__import__('hashlib'), a) for a in margs['algorithms']):
-                ctx.fail('C19/exit-status', 'digest exit status does not reflect whether the algorithms exist', inp, res.exit_code)
-            if cmd == 'inspect':
-                ok_meas = margs['measurement'] in (None, 'meas', 'tight')
-                if (res.exit_code == 0) != ok_meas:
-                    ctx.fail('C19/exit-status', 'inspect exit status does not reflect whether the measurement exists', inp, res.exit_code)
-                elif res.exit_code == 0:
-                    star = [ln for ln in res.output.splitlines() if ln.strip().startswith('(*)')]
-                    wantm = margs['measurement'] or 'meas'
-                    if len(star) != 1 or star[0].split()[1] != wantm:
-                        ctx.fail('C19/inspect-measurement', 'inspect does not describe the requested measurement', inp, star, wantm)
-            if cmd == 'patchset inspect' and res.exit_code == 0:
-                if [ln for ln in res.output.splitlines() if ln in ('pa', 'pb')] != ['pa', 'pb'] or '2 patches found' not in res.output:
-                    ctx.fail('C19/values', 'patchset inspect does not list the patches', inp, res.output[:200])
-            if cmd == 'json2xml' and res.exit_code == 0:
-                top = tmp / 'xml' / f"{margs['resultprefix']}.xml"
-                if not top.exists() or not (tmp / 'xml' / margs['dataroot'] / 'data.root').exists():
-                    ctx.fail('C19/json2xml-files', 'json2xml did not write the files its options name', inp)
-                else:
-                    back = pyhf.readxml.parse(str(top), str(tmp))
-                    base = json.loads((tmp / 'ws.json').read_text())
-                    for p in margs['patches']: base = jsonpatch.JsonPatch(json.loads((tmp / p).read_text())).apply(base)
-                    if [[s['data'] for s in c['samples']] for c in back['channels']] != [[[float(x) for x in s['data']] for s in c['samples']] for c in base['channels']]:
-                        ctx.fail('C19/values', 'json2xml did not export the (patched) workspace', inp)
-            # stdin vs file
-            if use_stdin and res.exit_code == 0 and cmd not in ('inspect',):
-                argv_f = [main_in if a == '-' else a for a in argv]
-                r3, _ = invoke(argv_f)
-                tf = outfile.read_text() if to_file else r3.stdout
-                if r3.exit_code != 0 or not same_json(tf, text, cmd):
-                    ctx.fail('C19/stdin-vs-file', 'input from standard input and from a file give different output', inp, text[:200], tf[:200])
-            # a real process
-            if sub_budget[0] > 0 and res.exit_code == 0 and not to_file and cmd in ('fit', 'cls', 'digest', 'sort', 'prune') and margs.get('backend', 'numpy') in ('numpy', 'np'):
-                sub_budget[0] -= 1
-                p = subprocess.run([sys.executable, '-W', 'ignore', '-c', 'from pyhf.cli.cli import pyhf; pyhf()'] + argv, input=stdin, capture_output=True, text=True, cwd=tmp, env=dict(os.environ))
-                ctx.count(); ctx.tally('subprocess', cmd)
-                if p.returncode != 0 or not same_json(p.stdout, res.stdout, cmd):
-                    ctx.fail('C19/subprocess', 'a real process prints something else than the in-process runner', inp, [p.returncode, p.stdout[:300], p.stderr[-300:]], res.output[:300])
-            if nondefault >= 2: ctx.nontrivial(json.dumps(argv))
-            if it < 2: ctx.sample({'argv': argv, 'exit': res.exit_code, 'model_call': mcall})
+                        pyhf.set_backend('numpy', 'scipy', precision='64b'); want = lib(); lerr = None
+                    except Exception as e:  # noqa
+                        want = None; lerr = type(e).__name__
+                    finally:
+                        pyhf.set_backend('numpy', 'scipy', precision='64b')
+                    if (lerr is None) != (res.exit_code == 0):
+                        ctx.fail('C19/exit-status', 'exit status does not say whether the library call succeeds', inp, [res.exit_code, type(res.exception).__name__ if res.exception else None], lerr or 'success')
+                    elif lerr is None and cmd != 'patchset verify':
+                        try:
+                            got = json.loads(text)
+                        except Exception:
+                            ctx.fail('C19/not-json', 'the emitted text is not JSON', inp, text[:300]); got = None
+                        if got is not None and cmd == 'patchset extract' and margs.get('with_metadata') and isinstance(got, dict) and 'metadata' in got:
+                            # the model's dictionary update (theorems extract_metadata_*) on the same two metadata objects
+                            dmp = lambda d: [[k, json.dumps(v, sort_keys=True)] for k, v in d.items()]
+                            pm = next(pt['metadata'] for pt in pset['patches'] if pt['metadata']['name'] == margs['name'])
+                            mm = dict(lean.ok({'op': 'cli_extract_meta', 'patch_meta': dmp(pm), 'set_meta': dmp(pset['metadata'])}))
+                            gm = {k: json.dumps(v, sort_keys=True) for k, v in got['metadata'].items()}
+                            ctx.tally('extract_meta_clash', len(set(pm) & set(pset['metadata'])))
+                            if gm != mm: ctx.disagree('cli.extract.metadata', inp, mm, gm)
+                        if got is not None and not close(got, json.loads(json.dumps(want))):
+                            ctx.fail('C19/values', 'the emitted JSON does not carry the values the library returns', inp, got, want)
+                        if got is not None and rep['keys'] and sorted(got) != rep['keys']:
+                            ctx.disagree('cli.result-keys', inp, rep['keys'], sorted(got))
+                    elif lerr is None and text.strip() != 'All good.':
+                        ctx.fail('C19/verify-text', 'patchset verify did not report success', inp, text[:100])
+                if cmd == 'digest' and res.exit_code == 0:
+                    algs = list(dict.fromkeys(margs['algorithms'])); dig = {a: pyhf.utils.digest(pyhf.Workspace(ws), algorithm=a) for a in algs}
+                    if margs['json']:
+                        if json.loads(text) != dig: ctx.fail('C19/values', 'digest JSON differs from utils.digest', inp, text, dig)
+                    else:
+                        wanttext = lean.ok({'op': 'cli_digest', 'algs': margs['algorithms'], 'digests': [[a, dig[a]] for a in algs]})
+                        if text != wanttext + '\n': ctx.disagree('cli.digest.plaintext', inp, wanttext, text)
+                if cmd == 'digest' and (res.exit_code == 0) != all(hasattr(__import__('hashlib'), a) for a in margs['algorithms']):
+                    ctx.fail('C19/exit-status', 'digest exit status does not reflect whether the algorithms exist', inp, res.exit_code)
+                if cmd == 'inspect':
+                    ok_meas = margs['measurement'] in (None, 'meas', 'tight')
+                    if (res.exit_code == 0) != ok_meas:
+                        ctx.fail('C19/exit-status', 'inspect exit status does not reflect whether the measurement exists', inp, res.exit_code)
+                    elif res.exit_code == 0:
+                        star = [ln for ln in res.output.splitlines() if ln.strip().startswith('(*)')]
+                        wantm = margs['measurement'] or 'meas'
+                        if len(star) != 1 or star[0].split()[1] != wantm:
+                            ctx.fail('C19/inspect-measurement', 'inspect does not describe the requested measurement', inp, star, wantm)
+                if cmd == 'patchset inspect' and res.exit_code == 0:
+                    if [ln for ln in res.output.splitlines() if ln in ('pa', 'pb')] != ['pa', 'pb'] or '2 patches found' not in res.output:
+                        ctx.fail('C19/values', 'patchset inspect does not list the patches', inp, res.output[:200])
+                if cmd == 'json2xml' and res.exit_code == 0:
+                    top = tmp / 'xml' / f"{margs['resultprefix']}.xml"
+                    if not top.exists() or not (tmp / 'xml' / margs['dataroot'] / 'data.root').exists():
+                        ctx.fail('C19/json2xml-files', 'json2xml did not write the files its options name', inp)
+                    else:
+                        back = pyhf.readxml.parse(str(top), str(tmp))
+                        base = json.loads((tmp / 'ws.json').read_text())
+                        for p in margs['patches']: base = jsonpatch.JsonPatch(json.loads((tmp / p).read_text())).apply(base)
+                        if [[s['data'] for s in c['samples']] for c in back['channels']] != [[[float(x) for x in s['data']] for s in c['samples']] for c in base['channels']]:
+                            ctx.fail('C19/values', 'json2xml did not export the (patched) workspace', inp)
+                # stdin vs file
+                if use_stdin and res.exit_code == 0 and cmd not in ('inspect',):
+                    argv_f = [main_in if a == '-' else a for a in argv]
+                    r3, _ = invoke(argv_f)
+                    tf = outfile.read_text() if to_file else r3.stdout
+                    if r3.exit_code != 0 or not same_json(tf, text, cmd):
+                        ctx.fail('C19/stdin-vs-file', 'input from standard input and from a file give different output', inp, text[:200], tf[:200])
+                # a real process
+                if sub_budget[0] > 0 and res.exit_code == 0 and not to_file and cmd in ('fit', 'cls', 'digest', 'sort', 'prune') and margs.get('backend', 'numpy') in ('numpy', 'np'):
+                    sub_budget[0] -= 1
+                    p = subprocess.run([sys.executable, '-W', 'ignore', '-c', 'from pyhf.cli.cli import pyhf; pyhf()'] + argv, input=stdin, capture_output=True, text=True, cwd=tmp, env=dict(os.environ))
+                    ctx.count(); ctx.tally('subprocess', cmd)
+                    if p.returncode != 0 or not same_json(p.stdout, res.stdout, cmd):
+                        ctx.fail('C19/subprocess', 'a real process prints something else than the in-process runner', inp, [p.returncode, p.stdout[:300], p.stderr[-300:]], res.output[:300])
+                if nondefault >= 2: ctx.nontrivial(json.dumps(argv))
+                if it < 2: ctx.sample({'argv': argv, 'exit': res.exit_code, 'model_call': mcall})
     finally:
         os.chdir(cwd)
         spy.remove()
